@@ -1283,6 +1283,18 @@ func c19Compare(exp [][]pmesg, out [][]pmesg) []c19Diff {
 	return ds
 }
 
+// number of differences in the message structure (sequence / message counts and numbers)
+func c19Structural(ds []c19Diff) int {
+	n := 0
+	for _, d := range ds {
+		switch d.Kind {
+		case "sequence-count", "message-count", "message-num":
+			n++
+		}
+	}
+	return n
+}
+
 // with component expansion on, expanded fields are regenerated by the decoder (C05): only the physical fields are compared
 func c19DropExpanded(seqs [][]pmesg, o c19Opts) [][]pmesg {
 	if !o.expand {
@@ -1434,7 +1446,7 @@ func (cs *c19Case) run(tmp string) {
 		return
 	}
 	exp := c19Expected(inSeqs, o, false)
-	if alt := c19Expected(inSeqs, o, true); alt.mfgDropped > 0 && len(c19Compare(exp.seqs, c19DropExpanded(outSeqs, o))) > len(c19Compare(alt.seqs, c19DropExpanded(outSeqs, o))) {
+	if alt := c19Expected(inSeqs, o, true); alt.mfgDropped > 0 && c19Structural(c19Compare(exp.seqs, c19DropExpanded(outSeqs, o))) > c19Structural(c19Compare(alt.seqs, c19DropExpanded(outSeqs, o))) {
 		exp = alt // the boundary messages did not come back: known finding, everything else is still compared
 	}
 	if exp.mfgDropped > 0 {
@@ -1766,7 +1778,7 @@ func c19(args []string) {
 			m := g.profileMesg(num, true, false)
 			seq = c19Append(seq, m)
 		}
-		add(&c19Case{name: fmt.Sprintf("remark-targets-%d", i), seqs: [][]proto.Message{seq}, opts: o, scope: "expansion-target-present"})
+		add(&c19Case{name: fmt.Sprintf("targets-present-%d", i), seqs: [][]proto.Message{seq}, opts: o})
 	}
 	for i := 0; i < nrand/3; i++ {
 		o := modes[i%4]
